@@ -477,7 +477,8 @@ func (e *Env) RGuard(siblings ...string) {
 				}
 				// whatever the child, a guard on it lets the present child through: `n.F != nil`,
 				// never `n.F == nil` (or the else branch of != nil) and never a constant
-				absent := (strings.Contains(ev.Guard, "n."+ev.Src+" == nil") && !ev.Else) || (strings.Contains(ev.Guard, "n."+ev.Src+" != nil") && ev.Else)
+				neg := strings.Contains(ev.Guard, "n."+ev.Src+" == nil") || strings.Contains(ev.Guard, "!(n."+ev.Src+" != nil)")
+				absent := (neg && !ev.Else) || (strings.Contains(ev.Guard, "n."+ev.Src+" != nil") && !neg && ev.Else)
 				constFalse := false
 				for _, cj := range strings.Split(ev.Guard, " && ") {
 					if cj = strings.TrimSpace(cj); cj == "false" || strings.HasPrefix(cj, "false && ") {
@@ -492,7 +493,13 @@ func (e *Env) RGuard(siblings ...string) {
 					continue
 				}
 				n++
-				ok := strings.Contains(ev.Guard, "n."+ev.Src+" != nil") && !ev.Else
+				ok := false
+				for _, cj := range strings.Split(ev.Guard, " && ") {
+					cj = strings.TrimSpace(cj)
+					if cj == "n."+ev.Src+" != nil" || cj == "(n."+ev.Src+" != nil)" {
+						ok = !ev.Else
+					}
+				}
 				e.Run.Check("R-GUARD", fmt.Sprintf("%s %s.%s nil-guarded", sn, tn, ev.Src), e.Prog.Pos(ev.Pos), ok,
 					fmt.Sprintf("%s.%s is optional (go/ast.Walk guards it with != nil) but %s recurses into it unguarded: a nil child reaches the visitor/converter", tn, ev.Src, sn))
 			}
@@ -608,4 +615,65 @@ func (e *Env) resolveField(all map[string]*NodeType, tn, path string) *Field {
 		nt = all[f.Elem]
 	}
 	return nil
+}
+
+// RSyntheticBackMap (R-MAPS): restoreIdent expands one dst.Ident into an ast.SelectorExpr with two
+// synthetic identifiers. All three ast nodes map back to the dst.Ident they came from: a store
+// r.Dst.Nodes[K] = n for K = out, out.X and out.Sel (the children are restored from temporary
+// dst.Idents, which their own registration points at: without the store the ast node maps to a
+// dst node that is not in the tree).
+func (e *Env) RSyntheticBackMap() {
+	pkg := e.Prog.Pkg(load.PkgDecorator)
+	info := pkg.TypesInfo
+	fd := load.FuncDecl(pkg, "FileRestorer", "restoreIdent")
+	if fd == nil || fd.Body == nil || fd.Type.Params == nil || len(fd.Type.Params.List) == 0 || len(fd.Type.Params.List[0].Names) == 0 {
+		return
+	}
+	param := info.Defs[fd.Type.Params.List[0].Names[0]]
+	got := map[string]bool{}
+	roots := []ast.Node{fd.Body}
+	c := e.Sib.Ctx[load.PkgDecorator]
+	if _, callee := c.TailCall(fd); callee != nil && callee.Body != nil {
+		roots = append(roots, callee.Body)
+	}
+	for _, root := range roots {
+		ast.Inspect(root, func(nd ast.Node) bool {
+			as, ok := nd.(*ast.AssignStmt)
+			if !ok || len(as.Lhs) != 1 || len(as.Rhs) != 1 {
+				return true
+			}
+			ix, ok := ast.Unparen(as.Lhs[0]).(*ast.IndexExpr)
+			if !ok || !strings.HasSuffix(types.ExprString(ix.X), "Dst.Nodes") {
+				return true
+			}
+			if id, ok := ast.Unparen(as.Rhs[0]).(*ast.Ident); ok && (info.Uses[id] == param || root != ast.Node(fd.Body)) {
+				keys := []ast.Expr{ix.Index}
+				// the key is the variable of a loop over a literal list of nodes
+				if kid, ok := ast.Unparen(ix.Index).(*ast.Ident); ok {
+					ast.Inspect(root, func(m ast.Node) bool {
+						rs, ok := m.(*ast.RangeStmt)
+						if !ok || rs.Value == nil {
+							return true
+						}
+						if vid, ok := rs.Value.(*ast.Ident); ok && info.Defs[vid] != nil && info.Defs[vid] == info.Uses[kid] {
+							if lit, ok := ast.Unparen(rs.X).(*ast.CompositeLit); ok {
+								keys = lit.Elts
+							}
+						}
+						return true
+					})
+				}
+				for _, k := range keys {
+					if se, ok := ast.Unparen(k).(*ast.SelectorExpr); ok {
+						got[se.Sel.Name] = true
+					} else {
+						got["."] = true
+					}
+				}
+			}
+			return true
+		})
+	}
+	e.Run.Check("R-MAPS", "restoreIdent: the selector and its two synthetic identifiers map back to the dst.Ident", e.Prog.Pos(fd.Pos()), got["."] && got["X"] && got["Sel"],
+		fmt.Sprintf("stores r.Dst.Nodes[…] = n found for the selector: %v, its X: %v, its Sel: %v — an ast identifier without it maps to the temporary dst.Ident it was restored from, which is not in the tree (Restorer.Dst.Nodes is not the inverse of the tree's nodes)", got["."], got["X"], got["Sel"]))
 }
